@@ -9,6 +9,7 @@ pub(super) fn wrap_plan_iterator<'a, S: GraphSnapshot + 'a>(
         inner: Box::new(iter),
         params,
         stage,
+        failed: false,
     }))
 }
 
@@ -16,24 +17,35 @@ struct RuntimeGuardIter<'a> {
     inner: Box<dyn Iterator<Item = Result<Row>> + 'a>,
     params: &'a crate::query_api::Params,
     stage: &'static str,
+    // Set once an error has been yielded: the stream ends there. Without it a tripped timeout
+    // is reported again on every pull, and a consumer that drains the stream never finishes.
+    failed: bool,
 }
 
 impl<'a> Iterator for RuntimeGuardIter<'a> {
     type Item = Result<Row>;
 
     fn next(&mut self) -> Option<Self::Item> {
+        if self.failed {
+            return None;
+        }
         if let Err(err) = self.params.check_timeout(self.stage) {
+            self.failed = true;
             return Some(Err(err));
         }
 
         match self.inner.next() {
             Some(Ok(row)) => {
                 if let Err(err) = self.params.note_emitted_row(self.stage) {
+                    self.failed = true;
                     return Some(Err(err));
                 }
                 Some(Ok(row))
             }
-            Some(Err(err)) => Some(Err(err)),
+            Some(Err(err)) => {
+                self.failed = true;
+                Some(Err(err))
+            }
             None => None,
         }
     }
